@@ -10,7 +10,7 @@ import (
 	"verif/engine/exec"
 )
 
-func writeEvidence(prop string, o *checkOpts, results []*exec.HarnessResult, confirmed []*confirmedViolation, knownHits []string, wall time.Duration, loadFailed bool) {
+func writeEvidence(prop string, o *checkOpts, results []*exec.HarnessResult, confirmed []*confirmedViolation, knownHits []string, wall time.Duration, loadFailed bool, validated, validationFailed int) {
 	type harnessEv struct {
 		Name          string            `json:"name"`
 		Bounds        map[string]string `json:"bounds"`
